@@ -100,6 +100,8 @@ def run_config(sh, fa, case, cfg, scratch, tag):
     fo, path = open_output(cfg["out"], scratch, tag)
     meta = dict(cfg["meta"]) if cfg["meta"] is not None else None
     kw = dict(codec=cfg["codec"], sync_interval=cfg["interval"], metadata=meta)
+    if cfg.get("validator"):
+        kw["validator"] = True  # conforming records: validating them first changes nothing
     if cfg["marker"]:
         kw["sync_marker"] = cfg["marker"]
     if cfg["level"] is not None:
@@ -109,6 +111,8 @@ def run_config(sh, fa, case, cfg, scratch, tag):
         def write_grouped():
             from fastavro.write import Writer
             wkw = dict(codec=kw["codec"], sync_interval=kw["sync_interval"], metadata=kw["metadata"])
+            if kw.get("validator"):
+                wkw["validator"] = True
             if "sync_marker" in kw:
                 wkw["sync_marker"] = kw["sync_marker"]
             if "codec_compression_level" in kw:
@@ -150,7 +154,19 @@ def run_config(sh, fa, case, cfg, scratch, tag):
         recs_arg = list(recs) if cfg["interval"] % 2 else (r for r in list(recs))
         st, err = guard(fa.writer, fo, schema_arg, recs_arg, **kw)
     if path:
+        # a buffered real file, looked at through a second handle before it is closed: once the
+        # writer has returned, everything it wrote has been flushed
+        if st != "exc":
+            with open(path, "rb") as f2:
+                seen_before_close = f2.read()
         fo.close()
+        if st != "exc":
+            with open(path, "rb") as f2:
+                final = f2.read()
+            sh.count("realfile_second_handle_reads")
+            if seen_before_close != final:
+                sh.violation("output-not-flushed", "a second handle on the output file saw %d of %d bytes after the writer had returned (before close)" % (len(seen_before_close), len(final)), info)
+                return None
     if st == "exc":
         if cfg["out"] == "writeonly" and fo.foreign:
             sh.violation("output-needs-more-than-write-flush", "writer touched %r on a non-seekable output and failed: %s" % (fo.foreign, exc_name(err)), info)
@@ -369,6 +385,8 @@ def one_case(sh, fa, rng, case, scratch, tag, full_matrix=False):
                    "flushes": sorted(rng.sample(range(len(recs)), rng.randint(0, len(recs)))) if recs and rng.random() < 0.3 else None}
             if cfg["flushes"] is None and recs and rng.random() < 0.12:
                 cfg["block_copy"] = rng.choice(CODECS)
+            elif rng.random() < 0.25:
+                cfg["validator"] = True
             sh.case(h64(schema_shape(js), min(len(recs), 5), codec, intervals.index(iv), out, inp, cfg["parsed"]),
                     bool(recs) or out != "bytesio" or codec != "null")
             got = run_config(sh, fa, case, cfg, scratch, "%s-%d" % (tag, n))
